@@ -8,7 +8,8 @@ import (
 	"gitlab.com/yawning/secp256k1-voi"
 )
 
-// Optional hooks (assigned in zz_verif_opt_*.go when those compile).
+// All hooks of this package are optional (assigned in zz_verif_opt_*.go when those compile against the
+// current tree); a check that needs a missing hook records it under skipped_hooks and carries on.
 var (
 	VerifSampleRandomScalar func(rd io.Reader) (*secp256k1.Scalar, error)
 	VerifNewDrbgRFC6979     func(x, e *secp256k1.Scalar) io.Reader
@@ -16,8 +17,8 @@ var (
 	VerifVerifyPriv   func(d *PrivateKey, digest []byte, r, s *secp256k1.Scalar) error
 	VerifMaxResamples func() int
 	VerifMitigate     func(rd io.Reader, k *PrivateKey, e *secp256k1.Scalar) (io.Reader, error)
-)
 
-// VerifKeyInternals exposes the fields of the key objects (core: field access only).
-func VerifPrivInternals(k *PrivateKey) (*secp256k1.Scalar, *PublicKey) { return k.scalar, k.publicKey }
-func VerifPubInternals(k *PublicKey) (*secp256k1.Point, []byte)        { return k.point, k.pointBytes }
+	// Field access to the key objects (layout dependent, hence optional).
+	VerifPrivInternals func(k *PrivateKey) (*secp256k1.Scalar, *PublicKey)
+	VerifPubInternals  func(k *PublicKey) (*secp256k1.Point, []byte)
+)
